@@ -216,19 +216,24 @@ func (g *Generator) convertScalarField(field *protogen.Field) *base.SchemaProxy 
 
 	// Add field examples if available
 	if examples := annotations.GetFieldExamples(field); len(examples) > 0 {
-		// Set the first example as the default example
-		schema.Example = &yaml.Node{
-			Kind:  yaml.ScalarNode,
-			Value: examples[0],
+		// Examples of a string field are strings, whatever they look like
+		exampleNode := func(example string) *yaml.Node {
+			if field.Desc.Kind() == protoreflect.StringKind {
+				return stringNode(example)
+			}
+			return &yaml.Node{
+				Kind:  yaml.ScalarNode,
+				Value: example,
+			}
 		}
+
+		// Set the first example as the default example
+		schema.Example = exampleNode(examples[0])
 
 		// Add all examples using OpenAPI 3.1 examples array format
 		schema.Examples = make([]*yaml.Node, len(examples))
 		for i, example := range examples {
-			schema.Examples[i] = &yaml.Node{
-				Kind:  yaml.ScalarNode,
-				Value: example,
-			}
+			schema.Examples[i] = exampleNode(example)
 		}
 	}
 
